@@ -1,4 +1,6 @@
 """C12 - LFP extraction equals low-pass plus decimation, independent of windowing."""
+import contextlib
+
 import numpy as np
 import scipy.signal
 from hypothesis import strategies as st
@@ -43,7 +45,10 @@ def _case(draw):
     if ns % 12 == 0:
         ns += draw(st.integers(1, 11))
     spec["ns"] = ns
-    return {"spec": spec, "w": [w1, w2], "content_seed": draw(st.integers(0, 2 ** 31)), "cbin_in": draw(st.integers(0, 3)) == 0}
+    return {"spec": spec, "w": [w1, w2], "content_seed": draw(st.integers(0, 2 ** 31)), "cbin_in": draw(st.integers(0, 3)) == 0,
+            # the second window size is processed by the SAME converter object (init_params called again; NP2.4: into new
+            # folders through extra=, NP2.1: overwrite=True) instead of a fresh converter in a fresh directory
+            "same_converter": draw(st.booleans())}
 
 
 def strategy(tier):
@@ -73,29 +78,51 @@ def run_case(case, ctx):
     sos = scipy.signal.butter(2, 1000 / 2500 / 2, btype="lowpass", output="sos")
     ref_all = scipy.signal.sosfiltfilt(sos, D[:, :nap].astype(np.float64), axis=0)[::12]
     results = []
+    same = bool(case.get("same_converter"))
+    ctx.label("same_converter" if same else "fresh_converters")
+    with contextlib.ExitStack() as stack:
+        _windows(case, ctx, sg, npx, spec, D, shank, shanks, is24, nc, nap, ns, nlf, ref_all, results, same, stack)
+    if len(results) == 2:
+        for s in results[0]:
+            a, b = results[0][s].astype(np.int64), results[1][s].astype(np.int64)
+            d = int(np.abs(a - b).max())
+            ctx.stat("window_diff_lsb", d)
+            ctx.check(d <= 1, "C12.window_independence", lambda: f"windows {case['w']} give LFP differing by {d} LSB (shank {s})")
+
+
+def _close(conv):
+    try:
+        conv.sr.close()
+    except Exception:  # noqa
+        pass
+
+
+def _windows(case, ctx, sg, npx, spec, D, shank, shanks, is24, nc, nap, ns, nlf, ref_all, results, same, stack):
+    root = conv = None
     for iw, w in enumerate(case["w"]):
         nw, lastlen = _nwin(ns, w)
         if nw >= 3 and lastlen < w:
             ctx.nontrivial = True
         ctx.label("windows_%s" % (nw if nw < 3 else "3+"))
-        with rec.scratch_dir(ctx) as root:
-            ap = np2.make_session(root, spec, D, cbin=case["cbin_in"], chunk=5000)
-            conv = ctx.call("C12.converter", npx.NP2Converter, ap, post_check=False, compress=False)
-            if conv is ctx.CRASH:
+        reuse = same and iw == 1
+        extra = "_b" if (reuse and is24) else ""
+        if True:
+            if not reuse:
+                root = stack.enter_context(rec.scratch_dir(ctx))
+                ap = np2.make_session(root, spec, D, cbin=case["cbin_in"], chunk=5000)
+                conv = ctx.call("C12.converter", npx.NP2Converter, ap, post_check=False, compress=False)
+                if conv is ctx.CRASH:
+                    return
+                stack.callback(_close, conv)
+            if ctx.call("C12.init_params", conv.init_params, nwindow=w, **({"extra": extra} if extra else {})) is ctx.CRASH:
                 return
-            if ctx.call("C12.init_params", conv.init_params, nwindow=w) is ctx.CRASH:
-                return
-            status = ctx.call("C12.process", conv.process)
-            try:
-                conv.sr.close()
-            except Exception:  # noqa
-                pass
+            status = ctx.call("C12.process", conv.process, **({"overwrite": True} if (reuse and not is24) else {}))
             if status is ctx.CRASH:
                 return
             if not ctx.check(status == 1, "C12.status", lambda: f"process() returned {status}"):
                 return
             per = {}
-            groups = [(s, root / ("probe00" + chr(97 + s)), np.flatnonzero(shank == s)) for s in shanks] if is24 \
+            groups = [(s, root / ("probe00" + chr(97 + s) + extra), np.flatnonzero(shank == s)) for s in shanks] if is24 \
                 else [(0, root / "probe00", np.arange(nap))]
             for s, fold, cols in groups:
                 lf = np2.find_data(fold, "lf")
@@ -131,9 +158,3 @@ def run_case(case, ctx):
                     srl.close()
                 per[s] = raw
             results.append(per)
-    if len(results) == 2:
-        for s in results[0]:
-            a, b = results[0][s].astype(np.int64), results[1][s].astype(np.int64)
-            d = int(np.abs(a - b).max())
-            ctx.stat("window_diff_lsb", d)
-            ctx.check(d <= 1, "C12.window_independence", lambda: f"windows {case['w']} give LFP differing by {d} LSB (shank {s})")
